@@ -91,7 +91,7 @@ def check(ctx):
                "implementation must leave `self` alone); other unresolved callees (third-party functions, callables passed as arguments) "
                "are effect-free and return fresh objects; lazily filled caches of QuantumScript (_graph, _specs, _batch_size, _obs_sharing_wires*) are not "
                "observable state; `X is not tape` guards are honoured")
-    depth = 8 if ctx.thorough else 4
+    depth = 10 if ctx.thorough else 6
     eng = Engine(ix, TAPE_SPEC, max_depth=depth, dispatch_bases=("Operator", "Operator2", "MeasurementProcess"))
     roots = transform_roots(ix)
     rep.floor("transform tape functions / expand_transforms", len(roots), 100)
